@@ -21,6 +21,11 @@ def explore(tier, seed):
             lists = [[c] for c in bounds] + [[len(b) + 1], [4294967295], bounds[::-1], bounds + [len(b) + 5]]
             if tier == "quick":
                 lists = lists[::3] + lists[-3:]
+            # equal offsets in a row (an empty selection), equal offsets apart, huge sentinels: the list is positional
+            if bounds:
+                m = bounds[len(bounds) // 2]
+                lists += [[m, m, bounds[-1]], [bounds[0], m, m], [m, bounds[-1], m], [x for c in bounds[:6] for x in (c, c)],
+                          [2147483647, 2147483648, 4294967295, 0], [m, 2147483648]]
             for l in lists:
                 for transport in ("stdin", "file"):
                     jobs.append((t, l, transport))
